@@ -624,6 +624,57 @@ def _fit(case, sel_py, shared=None):
     return est, cap.last(size)
 
 
+def _reconfigure(case, sel_py, shared):
+    """Estimator attributes changed between fits: ONE estimator is fitted, its public configuration attributes are
+    assigned other values (n_components, method, normalize, univariate_expansions), it is fitted again on the SAME data
+    object, and must then report what a fresh estimator built with the new configuration reports on that object."""
+    from FDApy.preprocessing.dim_reduction.mfpca import MFPCA
+    from FDApy.preprocessing.dim_reduction.ufpca import UFPCA
+
+    res = {}
+    with quiet():
+        try:
+            if case["kind"] == "ufpca":
+                data = shared.get("fd") or _dataset(case)[0]
+                two_d = "t2" in case
+                new = dict(method=case["method"] if two_d else ("inner-product" if case["method"] == "covariance" else "covariance"),
+                           n_components=(2 if sel_py == 1 else 1), normalize=not case["normalize"])
+                est = UFPCA(method=case["method"], n_components=sel_py, normalize=case["normalize"])
+                est.fit(data)
+                mk = lambda: UFPCA(**new)  # noqa: E731
+            else:
+                data = shared.get("mfd") or _multi(case)
+                P = len(case["comps"])
+                if case["method"] == "covariance":
+                    old_exps = shared.get("exps") or [dict(method="UFPCA", n_components=3) for _ in range(P)]
+                    k_old = old_exps[0].get("n_components", 5) if old_exps else 5
+                    new = dict(method="covariance", n_components=(3 if sel_py != 3 else 2), normalize=False,
+                               univariate_expansions=[dict(method="UFPCA", n_components=(4 if k_old != 4 else 2)) for _ in range(P)])
+                    est = MFPCA(n_components=sel_py, method="covariance", univariate_expansions=old_exps)
+                else:
+                    new = dict(method="inner-product", n_components=(2 if sel_py != 2 else 3), normalize=True)
+                    est = MFPCA(n_components=sel_py, method="inner-product")
+                est.fit(data)
+                mk = lambda: MFPCA(**new)  # noqa: E731
+            res["new"] = {k: (v if k != "univariate_expansions" else [dict(d) for d in v]) for k, v in new.items()}
+            for k, v in new.items():
+                setattr(est, k, v)
+            try:
+                est.fit(data)
+                res["refit_vals"] = [float(x) for x in np.asarray(est.eigenvalues)]
+            except Exception as e:  # noqa: BLE001
+                res["refit_error"] = err_class(e)
+            try:
+                fresh = mk()
+                fresh.fit(data)
+                res["fresh_vals"] = [float(x) for x in np.asarray(fresh.eigenvalues)]
+            except Exception as e:  # noqa: BLE001
+                res["fresh_error"] = err_class(e)
+        except Exception as e:  # noqa: BLE001
+            res["skipped"] = err_class(e)
+    return res
+
+
 def _auto_fractions(case, full, shared=None):
     """Fits with fractions derived from the cumulated shares of the n_components=None decomposition `full`."""
     res = []
@@ -795,6 +846,8 @@ def run_impl(case):
             out["full_error"] = err_class(e)
     elif case["sel"][0] == "all":
         out["full_vals"] = list(out["vals"])
+    if not str(case.get("dk", "")).startswith("large"):
+        out["reconf"] = _reconfigure(case, sel_py, shared)
     # the same data with one more component requested (prefix clause ACROSS requests)
     if case["sel"][0] == "int" and int(case["sel"][1]) >= 1:
         try:
@@ -1053,6 +1106,14 @@ def oracle(case, impl):
             if abs(nrm - want) > 1e-6 * max(want, 1.0):
                 bad("paired", f"eigenfunction {k} (eigenvalue {vals[k]!r}) has squared norm {nrm!r}, expected {want!r}")
                 break
+    rc = impl.get("reconf") or {}
+    if "new" in rc:
+        a1, a2 = rc.get("refit_vals"), rc.get("fresh_vals")
+        if a1 is None or a2 is None:
+            if rc.get("refit_error") != rc.get("fresh_error"):
+                bad("stale_state", f"after assigning {rc['new']} to the fitted estimator, fit on the same data object: {rc.get('refit_error') or 'ok'}; fresh estimator with that configuration: {rc.get('fresh_error') or 'ok'}")
+        elif len(a1) != len(a2) or not np.array_equal(np.array(a1), np.array(a2), equal_nan=True):
+            bad("stale_state", f"after assigning {rc['new']} to the fitted estimator and fitting the same data object again it reports {len(a1)} eigenvalues {a1[:4]}; a fresh estimator with that configuration reports {len(a2)}: {a2[:4]}")
     if "refit_vals" in impl or "refit_error" in impl:
         a1, a2 = impl.get("refit_vals"), impl.get("fresh_vals")
         if a1 is None or a2 is None:
